@@ -289,8 +289,32 @@ func readPool(path string) []Val {
 
 func show(x interface{}) string { return fmt.Sprintf("%T(%v)", x, x) }
 
+// hostile runs a script that takes the address of every kind of computed small result (operator results, len, unary minus, literals, elements)
+// and stores through it.  Results are values: nothing such a script does may change what an operation yields afterwards, in any
+// environment of the process -- the comparisons that follow would show it ("no result depends on operand magnitude: small-value fast
+// paths return the same values as the general path").
+func hostile() {
+	src := `
+func smash(p) { try { *p = 7777 } catch e { } }
+i = -3
+for i < 300 {
+  smash(&(i + 0)); smash(&(i - 0)); smash(&(i * 1)); smash(&(0 + i)); smash(&(i | 0)); smash(&(i & -1)); smash(&(i << 0)); smash(&(i >> 0)); smash(&(i % 100000))
+  smash(&(-i)); smash(&(^i)); smash(&(i))
+  j = i
+  smash(&(j++)); smash(&(j += 1))
+  i++
+}
+smash(&len([1, 2, 3])); smash(&len("ab")); smash(&len({})); smash(&1); smash(&0); smash(&(-1)); smash(&(1 + 2)); smash(&(2 * 2)); smash(&(7 / 1)); smash(&(1.5 + 1.5)); smash(&("a" + "b")); smash(&(true && true)); smash(&(1 == 1))
+smash(&nil); smash(&true); smash(&false); smash(&""); smash(&"a"); smash(&0.0); smash(&1.0)
+1
+`
+	e := env.NewEnv()
+	vm.Execute(e, nil, src)
+}
+
 func replay(poolPath, treePath, tlcPath, outPath string) {
 	pool, tree := readPool(poolPath), readPool(treePath)
+	hostile()
 	sum := Summary{ByOp: map[string]int{}}
 	err := tlcout.Each(tlcPath, func(raw []byte) error {
 		var c Case
@@ -361,6 +385,7 @@ func replay(poolPath, treePath, tlcPath, outPath string) {
 }
 
 func random(seed int64, n int, outPath string) {
+	hostile()
 	rng := rand.New(rand.NewSource(seed))
 	ops := []string{"+", "-", "*", "%", "&", "|", "<<", ">>", "<", "<=", ">", ">=", "==", "!="}
 	f, _ := os.Create(outPath)
